@@ -430,8 +430,9 @@ class C17(Prop):
                     be.seed(scn["salt"])
                     try:
                         ent[2](slots[st[1]], slots[st[2]], x)
-                    except (NotImplementedError, ValueError):
-                        pass             # refusals (e.g. inverse of a poked, no longer valid map)
+                    except Exception as e:
+                        s["raised"] = _exc(e)   # refusals, or kernels asserting on a poked (no longer valid) object;
+                                                # the frame conditions below are judged regardless
                 elif act == "inplace":
                     ent = im[(scn["salt"] + 5 * j) % len(im)] if im else None
                     s["o"] = "s%d" % st[1]
@@ -441,8 +442,8 @@ class C17(Prop):
                     if ent:
                         try:
                             ent[2](slots[st[1]], slots[st[2]], x)
-                        except (NotImplementedError, ValueError):
-                            pass
+                        except Exception as e:
+                            s["raised"] = _exc(e)
                 elif act == "poke":
                     s["o"] = "s%d" % st[1]
                     s["before"] = snap()
